@@ -64,6 +64,8 @@ class Contract:
         self.notes = []
         self.case_splits = []
         self.logicals = {}        # ghost (universally quantified) parameters: name -> type
+        self.pos_independent = []  # [(file parameter, condition)]: the result does not depend on its initial position
+        self.result_alias = {}    # object results: field -> parameter expression it aliases
         self.initializes = {}     # constructors: field -> expression over the parameters (post-state)
         self.fuel = 1
         self.timeout = None
@@ -75,7 +77,7 @@ class Contract:
 
 _SPEC_CALLS = {"requires", "ensures", "raises", "raises_only", "modifies", "terminates", "loop", "ghost", "local",
                "mode", "returns", "decreases", "cover", "yields", "note", "case_split", "fuel", "timeout", "domain",
-               "logical", "initializes"}
+               "logical", "initializes", "result_alias", "position_independent"}
 
 
 def _const(node):
@@ -142,6 +144,11 @@ def _parse_body(c, body):
                 c.covers += call.args
             elif f == "domain":
                 c.covers.append(call)
+            elif f == "position_independent":
+                c.pos_independent.append((call.args[0].id, kw.get("when")))
+            elif f == "result_alias":
+                for k, v in kw.items():
+                    c.result_alias[k] = v
             elif f == "initializes":
                 for k, v in kw.items():
                     c.initializes[k] = v
